@@ -151,20 +151,8 @@ fn on_call(ex: Arc<Exec>, who: String, broker: bool, what: String, target: Optio
             None => Decision::Normal,
             Some(Fault::LoseRequest) => Decision::LoseRequest,
             Some(Fault::LoseReply) => Decision::LoseReply,
-            Some(Fault::Duplicate) => {
-                if broker {
-                    Decision::Normal
-                } else {
-                    Decision::Duplicate
-                }
-            }
-            Some(Fault::Delay) => {
-                if broker {
-                    Decision::LoseRequest
-                } else {
-                    Decision::Delay
-                }
-            }
+            Some(Fault::Duplicate) => Decision::Duplicate,
+            Some(Fault::Delay) => Decision::Delay,
             Some(Fault::Crash) => {
                 ex.crash[coord_index(&who)].notify_one();
                 futures::future::pending::<()>().await;
@@ -362,8 +350,12 @@ async fn execute(script: &Script, plan: &Plan) -> Outcome {
             let ex3 = ex2.clone();
             Box::pin(async move {
                 let target = what.split(' ').nth(1).map(|s| s.to_string());
+                let mutating = what.starts_with("commit_migration") || what.starts_with("replace_proxy") || what.starts_with("add_failure");
                 match on_call(ex3, who, true, what, target).await {
-                    Decision::LoseRequest | Decision::Delay => BrokerVerdict::LoseRequest,
+                    Decision::LoseRequest => BrokerVerdict::LoseRequest,
+                    // a delayed / repeated read is just a failed / plain read
+                    Decision::Delay => if mutating { BrokerVerdict::Delay } else { BrokerVerdict::LoseRequest },
+                    Decision::Duplicate => if mutating { BrokerVerdict::Duplicate } else { BrokerVerdict::Exec },
                     Decision::LoseReply => BrokerVerdict::LoseReply,
                     _ => BrokerVerdict::Exec,
                 }
@@ -390,6 +382,10 @@ async fn execute(script: &Script, plan: &Plan) -> Outcome {
             let n = world.deliver_delayed(false).await;
             if n > 0 {
                 out.trace.push(format!("delivered {} delayed requests", n));
+            }
+            let nb = ex.sim.broker.deliver_delayed().await;
+            if nb > 0 {
+                out.trace.push(format!("delivered {} delayed broker calls", nb));
             }
         }
         // scripted events whose default tick has come
@@ -476,6 +472,9 @@ async fn execute(script: &Script, plan: &Plan) -> Outcome {
     {
         let mut ok_by_task: BTreeMap<String, usize> = BTreeMap::new();
         for c in &commits {
+            if c.ok && !c.was_current {
+                out.viol.push(("commit-accepted-for-a-task-the-broker-did-not-hold".into(), format!("commit of {} by {} was accepted although the broker held no migration with that range list, epoch and addresses at that moment (a stale descriptor committed a different, unfinished task)", c.task, c.who)));
+            }
             if c.ok {
                 *ok_by_task.entry(c.task.clone()).or_default() += 1;
             } else if c.state_changed {
@@ -489,8 +488,9 @@ async fn execute(script: &Script, plan: &Plan) -> Outcome {
         }
         // ordering inside the committing round
         let reached: Vec<&CallRec> = calls.iter().filter(|c| c.broker && c.what.starts_with("commit_migration") && !matches!(c.fault, Some(Fault::LoseRequest) | Some(Fault::Delay) | Some(Fault::Crash))).collect();
-        if reached.len() == commits.len() {
-            for (ci, c) in commits.iter().enumerate() {
+        let commits_in_order: Vec<&CommitRec> = commits.iter().filter(|c| !c.late).collect();
+        if reached.len() == commits_in_order.len() {
+            for (ci, c) in commits_in_order.iter().enumerate() {
                 if !c.ok {
                     continue;
                 }
@@ -633,7 +633,13 @@ fn applicable(c: &CallRec, f: Fault) -> bool {
         Fault::LoseRequest | Fault::Crash => true,
         // a lost reply differs from a lost request only for calls with an effect
         Fault::LoseReply => !c.broker || c.what.starts_with("commit_migration") || c.what.starts_with("replace_proxy") || c.what.starts_with("add_failure"),
-        Fault::Duplicate | Fault::Delay => !c.broker && c.what.to_uppercase().starts_with("UMCTL SET"),
+        Fault::Duplicate | Fault::Delay => {
+            if c.broker {
+                c.what.starts_with("commit_migration") || c.what.starts_with("replace_proxy") || c.what.starts_with("add_failure")
+            } else {
+                c.what.to_uppercase().starts_with("UMCTL SET")
+            }
+        }
         Fault::RestartTarget => !c.broker,
         Fault::OtherCoordinator => !c.nested,
         Fault::AdminNow => c.admin_pending,
